@@ -572,7 +572,7 @@ async fn phase_reject(cx: &mut Ctx<'_>, w: &mut World, ps: &[Principal], ts: &[T
                     }
                     if resp.status != 401 && resp.status != 403 {
                         cx.violate(
-                            format!("C14|status-before-auth|{}|{}", resp.status, b.label),
+                            format!("C14|status-before-auth|{}|{}", resp.status, b.sig_class()),
                             format!(
                                 "a caller without a valid key for a nonexistent database gets {} instead of the uniform rejection",
                                 resp.status
@@ -589,7 +589,7 @@ async fn phase_reject(cx: &mut Ctx<'_>, w: &mut World, ps: &[Principal], ts: &[T
                     }
                     if !trace.calls.is_empty() || !trace.mutations.is_empty() {
                         cx.violate(
-                            format!("C14|unauthorized-store-access|{}|nonexistent", b.label),
+                            format!("C14|unauthorized-store-access|{}|nonexistent", b.sig_class()),
                             "a rejected request for a nonexistent database touches the object store".into(),
                             phase,
                             p,
@@ -611,6 +611,7 @@ async fn phase_reject(cx: &mut Ctx<'_>, w: &mut World, ps: &[Principal], ts: &[T
                 continue;
             }
             let tclass = t.class(m, holder);
+            let tsig = t.sig_class(m, holder);
             for enc in [Enc::Cbor, Enc::Json] {
                 for (bi, b) in bs.iter().enumerate() {
                     let req = cx.prepared.request(bi, &t.path, p.auth.clone(), enc, victim);
@@ -621,7 +622,7 @@ async fn phase_reject(cx: &mut Ctx<'_>, w: &mut World, ps: &[Principal], ts: &[T
                         cx.distinct("path-level", p, &tclass, Some(enc), Some(b));
                         if (200..300).contains(&resp.status) || !trace.calls.is_empty() || !trace.mutations.is_empty() {
                             cx.violate(
-                                format!("C14|path-level-served|{tclass}"),
+                                format!("C14|path-level-served|{tsig}"),
                                 "a request whose path names no database was served or touched the store".into(),
                                 phase,
                                 p,
@@ -638,7 +639,7 @@ async fn phase_reject(cx: &mut Ctx<'_>, w: &mut World, ps: &[Principal], ts: &[T
                         } else if path_base.get(&(ti, enc, bi)) != Some(&resp) {
                             let base = path_base.get(&(ti, enc, bi)).map(|r| r.to_json());
                             cx.violate(
-                                format!("C14|path-level-differs|{tclass}"),
+                                format!("C14|path-level-differs|{tsig}"),
                                 "the answer to a path that names no database depends on the credential".into(),
                                 phase,
                                 p,
@@ -661,9 +662,9 @@ async fn phase_reject(cx: &mut Ctx<'_>, w: &mut World, ps: &[Principal], ts: &[T
                     };
                     if resp != *rref {
                         let sig = if holder.is_some() {
-                            format!("C14|cross-db-observe|{}|{tclass}", b.label)
+                            format!("C14|cross-db-observe|{tsig}")
                         } else {
-                            format!("C14|reject-differs|{tclass}")
+                            format!("C14|reject-differs|{tsig}")
                         };
                         cx.violate(
                             sig,
@@ -683,7 +684,7 @@ async fn phase_reject(cx: &mut Ctx<'_>, w: &mut World, ps: &[Principal], ts: &[T
                     }
                     if !trace.mutations.is_empty() {
                         cx.violate(
-                            format!("C14|unauthorized-write|{}|{tclass}", b.label),
+                            format!("C14|unauthorized-write|{}|{tsig}", b.sig_class()),
                             format!("a request the rules reject wrote to storage: {:?}", trace.mutations),
                             phase,
                             p,
@@ -696,7 +697,7 @@ async fn phase_reject(cx: &mut Ctx<'_>, w: &mut World, ps: &[Principal], ts: &[T
                         );
                     } else if trace.calls != tref.calls {
                         cx.violate(
-                            format!("C14|unauthorized-store-read|{}|{tclass}", b.label),
+                            format!("C14|unauthorized-store-read|{}|{tsig}", b.sig_class()),
                             format!("a request the rules reject read from storage: {:?}", trace.calls),
                             phase,
                             p,
@@ -746,7 +747,7 @@ async fn phase_tenant(cx: &mut Ctx<'_>, w: &mut World, phase: &str, d: usize, ps
                 }
                 if resp.status == 401 || resp.status == 403 {
                     cx.violate(
-                        format!("C14|owner-rejected|{tclass}"),
+                        format!("C14|owner-rejected|{}", t.sig_class(m, Some(d))),
                         "the holder of the key bound to this database is rejected on it".into(),
                         phase,
                         p,
@@ -902,7 +903,7 @@ async fn phase_admin(cx: &mut Ctx<'_>, w: &mut World, ps: &[Principal], ts: &[Ta
                     }
                     if resp.status == 401 || resp.status == 403 {
                         cx.violate(
-                            format!("C14|admin-rejected|{tclass}"),
+                            format!("C14|admin-rejected|{}", t.sig_class(m, None)),
                             "an admin principal is rejected".into(),
                             phase,
                             p,
